@@ -169,7 +169,11 @@ fn run_item(item: &Item, deadline: Instant) -> Agg {
                 push_violation(&mut agg, violation(&item.cfg, item.base, item.seed, ops, Some(&rec), k, phase, &f));
             }
         }
-        if agg.sample.is_none() && rec.journal.iter().any(|w| matches!(w, Write::DelNode(_))) && rec.journal.len() >= 5 {
+        if agg.sample.is_none()
+            && rec.journal.iter().any(|w| matches!(w, Write::DelNode(_)))
+            && rec.window.iter().any(|o| matches!(o, Op::Insert { v: 1, .. }))
+            && !rec.committed.is_empty()
+        {
             agg.sample = Some(json!({
                 "cfg": label, "base": item.base, "layer_seed": item.seed, "history": ops_short(ops),
                 "flush_writes": rec.journal.iter().map(|w| w.label()).collect::<Vec<_>>(),
@@ -226,16 +230,31 @@ fn main() {
     }
 
     // quick: all histories of <= 2 operations from all bases, plus 3 operations
-    // from the two non-empty bases at dim 2; thorough: <= 4 operations.
-    let seeds: Vec<u64> = run.tier.pick(vec![1], vec![1, 2]);
+    // from the committed full base b7c at dim 2, layer seed 1; thorough: <= 3 operations
+    // with layer seeds {1,2}, 4 operations with seed 1.
     let cfgs = all_cfgs(&[2, 8], false);
-    let plan: Vec<(usize, Vec<&'static str>, Vec<usize>)> = run.tier.pick(
-        vec![(0, vec!["empty", "b4", "b7"], vec![2, 8]), (1, vec!["empty", "b4", "b7"], vec![2, 8]), (2, vec!["empty", "b4", "b7"], vec![2, 8]), (3, vec!["b4", "b7"], vec![2])],
-        (0..=4).map(|d| (d, vec!["empty", "b4", "b7"], vec![2, 8])).collect(),
+    let all = vec!["empty", "b4", "b7c"];
+    type Step = (usize, Vec<&'static str>, Vec<usize>, Vec<u64>);
+    let plan: Vec<Step> = run.tier.pick(
+        vec![
+            (0, all.clone(), vec![2, 8], vec![1]),
+            (1, all.clone(), vec![2, 8], vec![1]),
+            (2, all.clone(), vec![2, 8], vec![1]),
+            (3, vec!["b7c"], vec![2], vec![1]),
+        ],
+        vec![
+            (0, all.clone(), vec![2, 8], vec![1, 2]),
+            (1, all.clone(), vec![2, 8], vec![1, 2]),
+            (2, all.clone(), vec![2, 8], vec![1, 2]),
+            (3, all.clone(), vec![2, 8], vec![1, 2]),
+            (4, all.clone(), vec![2, 8], vec![1]),
+        ],
     );
+    let mut all_seeds = BTreeSet::new();
     let mut completed: Vec<String> = Vec::new();
     let mut max_journal = 0usize;
-    for (depth, bases, dims) in plan {
+    for (depth, bases, dims, seeds) in plan {
+        all_seeds.extend(seeds.iter().copied());
         if !run.in_budget() {
             run.cap_hit(&format!("time budget: histories of {depth} operations not started"));
             break;
@@ -245,6 +264,8 @@ fn main() {
         let deadline = Instant::now() + std::time::Duration::from_secs_f64(run.remaining_s());
         let aggs: Vec<Agg> = util::par_map(work, util::n_threads(), |item| run_item(&item, deadline));
         let mut complete = true;
+        let mut samples_here = 0;
+        let mut last_sample_cfg: Option<serde_json::Value> = None;
         for a in aggs {
             complete &= a.complete;
             run.add("histories", a.histories);
@@ -259,22 +280,27 @@ fn main() {
                 run.violation(v);
             }
             if let Some(s) = a.sample {
-                run.sample(s);
+                // at most two per step, from different configurations
+                if samples_here < 2 && last_sample_cfg.as_ref() != Some(&s["cfg"]) {
+                    last_sample_cfg = Some(s["cfg"].clone());
+                    run.sample(s);
+                    samples_here += 1;
+                }
             }
         }
         run.set("max_flush_writes", json!(max_journal));
         if complete {
-            completed.push(format!("{depth} ops: bases {bases:?} dims {dims:?}"));
+            completed.push(format!("{depth} ops then the interrupted flush: bases {bases:?}, dims {dims:?}, layer seeds {seeds:?}"));
         } else {
             run.cap_hit(&format!("time budget: histories of {depth} operations not completed"));
             break;
         }
     }
     run.set("completed", json!(completed));
-    run.set("layer_seeds", json!(seeds));
+    run.set("layer_seeds", json!(all_seeds));
     run.set("configurations", json!(cfgs.len()));
     run.rule(
-        "every history of exactly d operations (alphabet of part hist, incl. completed flush+load steps) from each base, followed by a \
+        "every history of exactly d operations (alphabet of part hist, incl. completed flush+load steps) from each base (empty; ids 1-4 inserted, not flushed; ids 1-7 inserted and flushed to completion), followed by a \
          flush whose writes are journalled through the flush_with / purge_removed_nodes closures; for every k in 0..=len(journal): image = \
          durable state before the flush + journal[0..k] -> load_all -> (soundness vs the documents now, each id allowed to hold its vector \
          of the last completed flush or its current one while the commit record is not written; exact once it is) -> crash recovery as \
